@@ -114,22 +114,22 @@ struct XFault : Engine {
     std::vector<Scen> S; bool verbose = false;
     const char* name() override { return "x_fault"; }
     std::vector<std::string> counter_names() override { return { "fault_fired", "call_reported_failure", "call_completed_despite_fault", "fault_not_reached", "allocation_requests_total", "scenarios_x_configs" }; }
-    std::vector<std::string> stages() override { std::vector<std::string> st = { "single" }; if (cfg.thorough()) st.push_back("from_k_on"); return st; }
+    std::vector<std::string> stages() override { std::vector<std::string> st = { "single" }; if (cfg.thorough()) { st.push_back("from_k_on"); st.push_back("double"); } return st; }
     void worker_init() override { S = scenarios(); }
 
     struct Obs { bool failed; std::string repr; uint64_t requests; bool fired; bool violated; };
     // one execution of scenario s under config with fault k (0 = none)
-    Obs execute(const Scen& s, int hk, uint64_t k, bool from, bool check, const Obs* clean) {
+    Obs execute(const Scen& s, int hk, uint64_t k, bool from, bool check, const Obs* clean, uint64_t k2 = 0) {
         Obs o{}; long base = ledger_live(); L.errors = 0;
         install_hooks(hk ? HK_CUSTOM : HK_DEFAULT);
         Ctx c; s.prep(c); c.arg_consumed.assign(c.args.size(), false);
         std::vector<std::string> pre; for (auto t : c.trees) pre.push_back(wt(t)); std::vector<std::string> prea; for (auto a : c.args) prea.push_back(wt(a));
         long live_before = ledger_live(); uint64_t req0 = L.requests;
-        if (k) ledger_arm_fault(k, from);
+        if (k2) ledger_arm_fault2(k, k2); else if (k) ledger_arm_fault(k, from);
         s.call(c); ctr().calls++;
         o.fired = ledger_fault_fired(); ledger_arm_fault(0, false);
         o.requests = L.requests - req0; o.failed = c.failed; o.repr = c.repr;
-        auto VIO = [&](const char* sig, const std::string& m) { o.violated = true; if (check) violation(std::string("fault:") + sig, s.name + " [" + (hk ? "custom hooks" : "default allocator") + ", request " + std::to_string(k) + (from ? " and all later ones" : "") + " refused]: " + m); };
+        auto VIO = [&](const char* sig, const std::string& m) { o.violated = true; if (check) violation(std::string("fault:") + sig, s.name + " [" + (hk ? "custom hooks" : "default allocator") + ", request " + std::to_string(k) + (k2 ? " and " + std::to_string(k2) : std::string()) + (from ? " and all later ones" : "") + " refused]: " + m); };
         if (verbose) printf("  %s hooks=%d k=%llu fired=%d failed=%d requests=%llu repr=%s\n", s.name.c_str(), hk, (unsigned long long)k, o.fired, o.failed, (unsigned long long)o.requests, printable(o.repr.substr(0, 120)).c_str());
         if (L.errors) VIO("allocator-misuse", L.first_error);
         if (k && o.fired) {
@@ -165,11 +165,18 @@ struct XFault : Engine {
 
     void enumerate(const std::string& stage) override {
         bool from = stage == "from_k_on";
+        if (stage == "double") {   // deviation bound 2: every pair of refused requests
+            for (size_t si = 0; si < S.size(); si++) for (int hk = 0; hk < 2; hk++) {
+                Obs clean = execute(S[si], hk, 0, false, false, nullptr); uint64_t N = clean.requests > 40 ? 40 : clean.requests;
+                for (uint64_t k1 = 1; k1 <= N; k1++) { if (!pool_take()) continue; for (uint64_t k2 = k1 + 1; k2 <= N + 1; k2++) { static Case c; c.kind = 0; c.iv[1] = (int64_t)si; c.iv[2] = hk; c.iv[3] = (int64_t)k1; c.iv[4] = 0; c.iv[5] = (int64_t)k2; c.set(S[si].name); pool_run(c); } }
+            }
+            return;
+        }
         for (size_t si = 0; si < S.size(); si++) for (int hk = 0; hk < 2; hk++) {
             Obs clean = execute(S[si], hk, 0, false, false, nullptr);
             for (uint64_t k = 1; k <= clean.requests + 1; k++) {
                 if (!pool_take()) continue;
-                static Case c; c.kind = 0; c.iv[1] = (int64_t)si; c.iv[2] = hk; c.iv[3] = (int64_t)k; c.iv[4] = from; c.set(S[si].name); pool_run(c);
+                static Case c; c.kind = 0; c.iv[1] = (int64_t)si; c.iv[2] = hk; c.iv[3] = (int64_t)k; c.iv[4] = from; c.iv[5] = 0; c.set(S[si].name); pool_run(c);
             }
         }
     }
@@ -178,7 +185,7 @@ struct XFault : Engine {
         size_t si = (size_t)c.iv[1]; if (si >= S.size()) return;
         Obs clean = execute(S[si], (int)c.iv[2], 0, false, false, nullptr);
         if (clean.failed && S[si].name != "DetachItemFromObject" ) { /* fault-free run must succeed */ }
-        Obs o = execute(S[si], (int)c.iv[2], (uint64_t)c.iv[3], c.iv[4] != 0, true, &clean);
+        Obs o = execute(S[si], (int)c.iv[2], (uint64_t)c.iv[3], c.iv[4] != 0, true, &clean, (uint64_t)c.iv[5]);
         ctr().compared++; ctr().extra[4] += clean.requests;
         if (o.fired) { ctr().extra[0]++; if (o.failed) { ctr().extra[1]++; ctr().nontrivial++; } else ctr().extra[2]++; } else ctr().extra[3]++;
         if (c.iv[3] == 1) ctr().extra[5]++;
